@@ -138,7 +138,7 @@ def run_case(case):
             from hxv.drive import batch
             try:
                 ind = batch(cfg, case["rows"])
-                xs = [r[numeric.FIELD[cfg["kw"].get("input_value", "close")]] for r in case["rows"]]
+                xs = numeric.series(case["rows"], cfg["kw"].get("input_value", "close"))
                 msg = range_check(cfg["cls"], cfg["kw"], ind.as_list(), xs, 0, res["stats"], cfg["kw"].get("round_value", 4))
                 if msg:
                     res["violations"].append({"monitor": "range-check", "sig": f"C04|outside-input-range|{cfg['cls']}", "detail": f"{ind.name}: {msg}"})
